@@ -35,12 +35,31 @@ var epochSource = map[string]string{
 	"core.SyncContributionAndProof":             "eth2util.EpochFromSlot(recv.ContributionAndProof.Contribution.Slot)",
 }
 
+// epochAtoms are the callees that the table treats as primitives; every other in-repo function met on the way
+// (a wrapper such as `slotEpoch(ctx, cl, slot)`, a helper method of the implementor) is looked through: its
+// parameters are replaced by the caller's arguments and the term continues in its successful return values.
+var epochAtoms = map[string]bool{"eth2util.EpochFromSlot": true}
+
 func init() {
 	m := []Mutant{
 		{ID: "EPOCH-attestation-source", File: "core/eth2signeddata.go", Expect: "EP",
 			Old: "\treturn data.Target.Epoch, nil", New: "\treturn data.Source.Epoch, nil"},
 		{ID: "EPOCH-randao-zero", File: "core/eth2signeddata.go", Expect: "EP",
 			Old: "\treturn s.SignedEpoch.Epoch, nil", New: "\treturn s.SignedEpoch.Epoch - s.SignedEpoch.Epoch%2, nil"},
+		// the wrong datum hidden behind an in-package wrapper (the rule follows the wrapper's parameter back to the argument)
+		{ID: "EPOCH-helper-previous-slot", File: "core/eth2signeddata.go", Expect: "EP|core.BeaconCommitteeSelection",
+			Old: "func (s BeaconCommitteeSelection) Epoch(ctx context.Context, eth2Cl eth2wrap.Client) (eth2p0.Epoch, error) {\n\treturn eth2util.EpochFromSlot(ctx, eth2Cl, s.Slot)\n}",
+			New: "func (s BeaconCommitteeSelection) Epoch(ctx context.Context, eth2Cl eth2wrap.Client) (eth2p0.Epoch, error) {\n\treturn hxSlotEpoch(ctx, eth2Cl, s.Slot)\n}\n\nfunc hxSlotEpoch(ctx context.Context, eth2Cl eth2wrap.Client, slot eth2p0.Slot) (eth2p0.Epoch, error) {\n\treturn eth2util.EpochFromSlot(ctx, eth2Cl, slot-1)\n}"},
+		// single-exit form whose merged value takes the wrong datum on the success edge
+		{ID: "EPOCH-attestation-single-exit-source", File: "core/eth2signeddata.go", Expect: "EP|core.VersionedAttestation",
+			Old: "\tdata, err := a.Data()\n\tif err != nil {\n\t\treturn 0, errors.Wrap(err, \"get attestation data\")\n\t}\n\n\treturn data.Target.Epoch, nil",
+			New: "\tvar epoch eth2p0.Epoch\n\n\tdata, err := a.Data()\n\tif err != nil {\n\t\terr = errors.Wrap(err, \"get attestation data\")\n\t} else {\n\t\tepoch = data.Source.Epoch\n\t}\n\n\treturn epoch, err"},
+		// a second successful return that yields a constant epoch
+		{ID: "EPOCH-proposal-zero-on-branch", File: "core/eth2signeddata.go", Expect: "EP|core.VersionedSignedProposal",
+			Old: "\tslot, err := p.Slot()\n\tif err != nil {\n\t\treturn 0, err\n\t}\n\n\treturn eth2util.EpochFromSlot(ctx, eth2Cl, slot)",
+			New: "\tslot, err := p.Slot()\n\tif err != nil {\n\t\treturn 0, err\n\t}\n\n\tif p.Blinded {\n\t\treturn 0, nil\n\t}\n\n\treturn eth2util.EpochFromSlot(ctx, eth2Cl, slot)"},
+		{ID: "EPOCH-exit-next-epoch", File: "core/eth2signeddata.go", Expect: "EP|core.SignedVoluntaryExit",
+			Old: "\treturn e.Message.Epoch, nil", New: "\tnext := e.Message.Epoch + 1\n\n\treturn next, nil"},
 	}
 	Extend("C09", "(EP) every Eth2SignedData implementor derives the domain epoch from the frozen, type-specific datum (e.g. attestation target epoch).", epochRule, m...)
 	Extend("C10", "(EP) every Eth2SignedData implementor derives the domain epoch from the frozen, type-specific datum (e.g. attestation target epoch).", epochRule)
@@ -68,106 +87,305 @@ func epochRule(c *rt.Ctx) {
 				c.Unsure(name+".Epoch", fn.Pos(), "new Eth2SignedData implementor without an entry in the epoch-source table")
 				continue
 			}
-			var got []string
-			for _, r := range an.Returns(fn) {
-				if len(r.Results) != 2 {
-					continue
-				}
-				// only returns that can succeed: error result is nil or a call's error
-				if !an.IsNilConst(r.Results[1]) {
-					// a tail call `return f(...)`: both results come from the same call
-					e1, ok1 := r.Results[1].(*ssa.Extract)
-					e0, ok0 := r.Results[0].(*ssa.Extract)
-					if !ok0 || !ok1 || e0.Tuple != e1.Tuple {
-						continue
-					}
-				}
-				got = append(got, provTerm(r.Results[0], 0))
-			}
-			sort.Strings(got)
-			uniq := got[:0]
-			for i, g := range got {
-				if i == 0 || g != got[i-1] {
-					uniq = append(uniq, g)
+			tm := &termer{atoms: epochAtoms}
+			got := tm.resultTerms(fn, 0, nil, 0)
+			unknown := ""
+			for _, g := range got {
+				if strings.Contains(g, "?") {
+					unknown = g
 				}
 			}
-			c.Check(name+".Epoch source", fn.Pos(), len(uniq) == 1 && uniq[0] == want,
-				fmt.Sprintf("domain epoch is derived from %v, the confirmed source is %s", uniq, want))
+			switch {
+			case len(got) == 1 && got[0] == want:
+				c.Good(name+".Epoch source", fn.Pos(), "domain epoch = "+want)
+			case unknown != "" || len(got) == 0:
+				c.Unsure(name+".Epoch source", fn.Pos(), fmt.Sprintf("the provenance of the returned epoch has a shape the rule does not follow (%v); confirmed source is %s", got, want))
+			default:
+				c.Bad(name+".Epoch source", fn.Pos(), fmt.Sprintf("domain epoch is derived from %v, the confirmed source is %s", got, want))
+			}
 		}
 	})
 }
 
-// provTerm renders the provenance of a value as a term over the receiver ("recv"), parameters,
-// field selections, method calls and static calls (context and client arguments elided).
-func provTerm(v ssa.Value, d int) string {
-	if d > 12 {
-		return "…"
+// termer renders the provenance of a value as a set of alternative terms over the receiver ("recv"), field
+// selections, method calls and static calls (context and client arguments elided). Locals, spill slots, conversions
+// and in-repo wrapper functions are transparent; a phi contributes one alternative per edge.
+type termer struct {
+	atoms map[string]bool
+	stack []*ssa.Function
+	phis  map[*ssa.Phi]bool
+}
+
+type termEnv map[ssa.Value][]string
+
+const termCap = 24
+
+// resultTerms returns the alternatives of result idx over the successful returns of fn.
+func (t *termer) resultTerms(fn *ssa.Function, idx int, env termEnv, d int) []string {
+	var out []string
+	cases := an.SuccessCases(fn)
+	for _, rc := range cases {
+		if idx >= len(rc.Vals) {
+			continue
+		}
+		out = append(out, t.terms(rc.Vals[idx], env, d+1)...)
+	}
+	if len(cases) == 0 {
+		out = append(out, "?no-successful-return")
+	}
+	return termSet(out)
+}
+
+func termSet(in []string) []string {
+	sort.Strings(in)
+	out := in[:0]
+	for i, s := range in {
+		if i == 0 || s != in[i-1] {
+			out = append(out, s)
+		}
+	}
+	if len(out) > termCap {
+		out = append(out[:termCap:termCap], "?too-many-alternatives")
+	}
+	return out
+}
+
+func termMap(a []string, f func(string) string) []string {
+	out := make([]string, 0, len(a))
+	for _, x := range a {
+		out = append(out, f(x))
+	}
+	return termSet(out)
+}
+
+func termCross(a, b []string, f func(x, y string) string) []string {
+	var out []string
+	for _, x := range a {
+		for _, y := range b {
+			out = append(out, f(x, y))
+		}
+	}
+	return termSet(out)
+}
+
+func (t *termer) terms(v ssa.Value, env termEnv, d int) []string {
+	if d > 16 {
+		return []string{"?deep"}
+	}
+	if ts, ok := env[v]; ok {
+		return ts
 	}
 	v = an.Resolve(v)
+	if ts, ok := env[v]; ok {
+		return ts
+	}
 	switch x := v.(type) {
 	case *ssa.Parameter:
-		if x.Parent().Signature.Recv() != nil && len(x.Parent().Params) > 0 && x.Parent().Params[0] == x {
-			return "recv"
+		if an.IsReceiver(x) {
+			return []string{"recv"}
 		}
-		return x.Name()
+		return []string{fmt.Sprintf("arg%d", an.ParamIndex(x))}
+	case *ssa.FreeVar:
+		b := an.ClosureBinding(x)
+		if b == nil {
+			return []string{"?freevar"}
+		}
+		if al, ok := b.(*ssa.Alloc); ok {
+			return t.allocTerms(al, env, d)
+		}
+		return t.terms(b, env, d+1)
 	case *ssa.Const:
 		if x.Value == nil {
-			return "nil"
+			return []string{"nil"}
 		}
-		return x.Value.ExactString()
+		return []string{x.Value.ExactString()}
 	case *ssa.Field:
-		return provTerm(x.X, d+1) + "." + fieldNameOf(x.X.Type(), x.Field)
+		name := fieldNameOf(x.X.Type(), x.Field)
+		return termMap(t.terms(x.X, env, d+1), func(s string) string { return s + "." + name })
 	case *ssa.FieldAddr:
-		return provTerm(x.X, d+1) + "." + fieldNameOf(x.X.Type(), x.Field)
+		name := fieldNameOf(x.X.Type(), x.Field)
+		// a local struct built field by field: read back what was stored into this field
+		if al, ok := an.Resolve(x.X).(*ssa.Alloc); ok && len(an.StoresTo(al)) == 0 {
+			var vals []string
+			for _, ref := range *al.Referrers() {
+				fa, ok := ref.(*ssa.FieldAddr)
+				if !ok || fa.Field != x.Field {
+					continue
+				}
+				for _, r2 := range *fa.Referrers() {
+					if st, ok := r2.(*ssa.Store); ok && st.Addr == ssa.Value(fa) {
+						vals = append(vals, t.terms(st.Val, env, d+1)...)
+					}
+				}
+			}
+			if len(vals) > 0 {
+				return termSet(vals)
+			}
+		}
+		return termMap(t.terms(x.X, env, d+1), func(s string) string { return s + "." + name })
 	case *ssa.UnOp:
 		if x.Op == token.MUL {
-			return provTerm(x.X, d+1)
+			return t.terms(x.X, env, d+1)
 		}
-		return x.Op.String() + provTerm(x.X, d+1)
+		return termMap(t.terms(x.X, env, d+1), func(s string) string { return x.Op.String() + s })
 	case *ssa.Alloc:
-		// a spilled receiver/parameter copy
-		if s := an.UniqueStore(x); s != nil {
-			return provTerm(s, d+1)
-		}
-		return "local"
+		return t.allocTerms(x, env, d)
 	case *ssa.Extract:
-		t := provTerm(x.Tuple, d+1)
-		if x.Index == 0 {
-			return t
+		if call, ok := x.Tuple.(*ssa.Call); ok {
+			return t.callTerms(call, x.Index, env, d)
 		}
-		return fmt.Sprintf("%s#%d", t, x.Index)
+		return termMap(t.terms(x.Tuple, env, d+1), func(s string) string { return fmt.Sprintf("%s#%d", s, x.Index) })
 	case *ssa.BinOp:
-		return "(" + provTerm(x.X, d+1) + x.Op.String() + provTerm(x.Y, d+1) + ")"
+		op := x.Op.String()
+		comm := x.Op == token.ADD || x.Op == token.MUL || x.Op == token.AND || x.Op == token.OR || x.Op == token.XOR
+		return termCross(t.terms(x.X, env, d+1), t.terms(x.Y, env, d+1), func(a, b string) string {
+			if comm && b < a {
+				a, b = b, a
+			}
+			return "(" + a + op + b + ")"
+		})
 	case *ssa.Call:
-		var args []string
-		for i, a := range x.Call.Args {
-			if isCtxOrClient(a.Type()) {
-				continue
-			}
-			if i == 0 && x.Call.StaticCallee() != nil && x.Call.StaticCallee().Signature.Recv() != nil {
-				continue
-			}
-			args = append(args, provTerm(a, d+1))
-		}
-		if x.Call.IsInvoke() {
-			return provTerm(x.Call.Value, d+1) + "." + x.Call.Method.Name() + "(" + strings.Join(args, ",") + ")"
-		}
-		if f := x.Call.StaticCallee(); f != nil {
-			if f.Signature.Recv() != nil && len(x.Call.Args) > 0 {
-				return provTerm(x.Call.Args[0], d+1) + "." + f.Name() + "(" + strings.Join(args, ",") + ")"
-			}
-			return an.FuncName(f) + "(" + strings.Join(args, ",") + ")"
-		}
-		return "call?"
+		return t.callTerms(x, 0, env, d)
 	case *ssa.Phi:
+		if t.phis == nil {
+			t.phis = map[*ssa.Phi]bool{}
+		}
+		if t.phis[x] {
+			return nil // loop-carried: the other edges describe the value
+		}
+		t.phis[x] = true
+		defer delete(t.phis, x)
 		var es []string
 		for _, e := range x.Edges {
-			es = append(es, provTerm(e, d+1))
+			es = append(es, t.terms(e, env, d+1)...)
 		}
-		sort.Strings(es)
-		return "phi[" + strings.Join(es, "|") + "]"
+		if len(es) == 0 {
+			return []string{"?phi"}
+		}
+		return termSet(es)
+	case *ssa.Lookup:
+		return termCross(t.terms(x.X, env, d+1), t.terms(x.Index, env, d+1), func(a, b string) string { return a + "[" + b + "]" })
+	case *ssa.Index:
+		return termCross(t.terms(x.X, env, d+1), t.terms(x.Index, env, d+1), func(a, b string) string { return a + "[" + b + "]" })
+	case *ssa.IndexAddr:
+		return termCross(t.terms(x.X, env, d+1), t.terms(x.Index, env, d+1), func(a, b string) string { return a + "[" + b + "]" })
+	case *ssa.TypeAssert:
+		return termMap(t.terms(x.X, env, d+1), func(s string) string { return s + ".(" + an.TypeName(x.AssertedType) + ")" })
 	}
-	return fmt.Sprintf("%T", v)
+	return []string{fmt.Sprintf("?%T", v)}
+}
+
+func (t *termer) allocTerms(al *ssa.Alloc, env termEnv, d int) []string {
+	sts := an.StoresTo(al)
+	if len(sts) == 0 {
+		return []string{"zero"}
+	}
+	var out []string
+	for _, st := range sts {
+		if st.Parent() != al.Parent() {
+			out = append(out, "?captured-store")
+			continue
+		}
+		out = append(out, t.terms(st.Val, env, d+1)...)
+	}
+	return termSet(out)
+}
+
+// callTerms renders result idx of a call: an in-repo callee with a body that is not one of the atoms is looked
+// through (arguments substituted for parameters); everything else is an atom applied to its argument terms.
+func (t *termer) callTerms(x *ssa.Call, idx int, env termEnv, d int) []string {
+	suffix := func(s string) string {
+		if idx == 0 {
+			return s
+		}
+		return fmt.Sprintf("%s#%d", s, idx)
+	}
+	if body := an.StaticBody(&x.Call); body != nil && !t.atoms[an.FuncName(body)] && len(t.stack) < 5 {
+		rec := false
+		for _, f := range t.stack {
+			if f == body {
+				rec = true
+			}
+		}
+		if !rec {
+			env2 := termEnv{}
+			args := x.Call.Args
+			for i, p := range body.Params {
+				if i < len(args) {
+					ts := t.terms(args[i], env, d+1)
+					env2[p] = ts
+				}
+			}
+			// free variables of a directly called closure keep the caller's environment
+			for k, v := range env {
+				if _, isFV := k.(*ssa.FreeVar); isFV {
+					env2[k] = v
+				}
+			}
+			if mc, ok := an.Resolve(x.Call.Value).(*ssa.MakeClosure); ok {
+				for i, fv := range body.FreeVars {
+					if i < len(mc.Bindings) {
+						if al, ok := mc.Bindings[i].(*ssa.Alloc); ok {
+							env2[fv] = t.allocTerms(al, env, d+1)
+						} else {
+							env2[fv] = t.terms(mc.Bindings[i], env, d+1)
+						}
+					}
+				}
+			}
+			t.stack = append(t.stack, body)
+			out := t.resultTerms(body, idx, env2, d+1)
+			t.stack = t.stack[:len(t.stack)-1]
+			return out
+		}
+	}
+	argAlts := [][]string{}
+	for i, a := range x.Call.Args {
+		if isCtxOrClient(a.Type()) {
+			continue
+		}
+		if i == 0 && x.Call.StaticCallee() != nil && x.Call.StaticCallee().Signature.Recv() != nil {
+			continue
+		}
+		argAlts = append(argAlts, t.terms(a, env, d+1))
+	}
+	joined := []string{""}
+	for i, alts := range argAlts {
+		joined = termCross(joined, alts, func(a, b string) string {
+			if i == 0 {
+				return b
+			}
+			return a + "," + b
+		})
+	}
+	if x.Call.IsInvoke() {
+		return termCross(t.terms(x.Call.Value, env, d+1), joined, func(r, a string) string {
+			return suffix(r + "." + x.Call.Method.Name() + "(" + a + ")")
+		})
+	}
+	if f := x.Call.StaticCallee(); f != nil {
+		if f.Signature.Recv() != nil && len(x.Call.Args) > 0 {
+			return termCross(t.terms(x.Call.Args[0], env, d+1), joined, func(r, a string) string {
+				return suffix(r + "." + f.Name() + "(" + a + ")")
+			})
+		}
+		name := an.FuncName(f)
+		return termMap(joined, func(a string) string { return suffix(name + "(" + a + ")") })
+	}
+	if b, ok := x.Call.Value.(*ssa.Builtin); ok {
+		return termMap(joined, func(a string) string { return suffix(b.Name() + "(" + a + ")") })
+	}
+	return []string{"?dynamic-call"}
+}
+
+// provTerm renders the provenance of a value as one term (alternatives joined), kept for other rule files.
+func provTerm(v ssa.Value, d int) string {
+	tm := &termer{atoms: epochAtoms}
+	ts := tm.terms(v, nil, d)
+	if len(ts) == 1 {
+		return ts[0]
+	}
+	return "phi[" + strings.Join(ts, "|") + "]"
 }
 
 func fieldNameOf(t types.Type, idx int) string {
